@@ -20,7 +20,27 @@ def families(tier, seed):
                     continue
                 out.append(dict(tag=f"{tag}/{solver}", features=dict(feats, solver=solver), kind="inputs", model=model, inputs=inputs,
                                 solver=solver, vec=vec, T=1.0, dt=0.05))
+    # two calls in one process with different input values (the second must not see the first's arrays)
+    for tag, feats, model, inputs in gen.c08_cases(seed)[:3]:
+        if feats.get("vec_only") or feats.get("coarse"):
+            continue
+        for solver in ("euler", "scipy"):
+            for vec in (False,):      # (vectorize=True with kept caches raises KeyError on the second call: cache matter, C13)
+                out.append(dict(tag=f"{tag}/{solver}/second-call", features=dict(feats, solver=solver, second_call=True), kind="inputs_seq", model=model,
+                                inputs=inputs, solver=solver, vec=vec, T=1.0, dt=0.05))
+    # the Torch / JAX / Fortran backends' own fixed-step loops and input plumbing (sample k drives step k on every backend)
+    from checks import c02 as _c02
+    for c in _c02.families(tier, seed):
+        if c["kind"] == "loops" or c["kind"] == "inputs_backend":
+            out.append(c)
     return out
+
+
+def case_fn(c):
+    if c["kind"] in ("loops", "inputs_backend"):
+        from checks import c02 as _c02
+        return _c02.dispatch(c)
+    return cases.case_fn(c)
 
 
 def main():
@@ -32,12 +52,14 @@ def main():
                       fallback={"*": solver_fallback(chk)})
     chk.run_contracts("contracts.c02", fallback={"*": lambda: []})
     driver.run_family(
-        chk, "run-with-inputs-vs-spec", families(chk.tier, chk.seed), cases.case_fn, site="C08/inputs",
+        chk, "run-with-inputs-vs-spec", families(chk.tier, chk.seed), case_fn, site="C08/inputs",
         rule="leaky integrators driven by seeded random (non-constant) input arrays: (N,), (N,1), 1-D broadcast to three nodes via "
              "`all`, (N,3) one column per node (vectorised only), one node of three plus a converging edge, two inputs to two "
              "variables, two inputs to the same variable, hierarchy with single and wildcard targets, a coarse 9-sample input under "
              "an adaptive solver; euler (sample k drives step k, exact comparison) and scipy (linear interpolation on linspace(0,T,N), "
-             "tight reference); vectorize off and on; distinct = (scenario, solver, vectorize)",
+             "tight reference); vectorize off and on; a second call in the same process with other input values; the Torch / JAX / "
+             "Fortran backends with a seeded input (their own euler/heun loops with dts = 3 and 5 steps, scipy with interpolation) and "
+             "their loops called directly; distinct = (scenario, solver, vectorize)",
         sample_of=lambda c: {k: v for k, v in c.items() if k not in ("features", "inputs")})
     rc = chk.finish(
         explanation="Deductive core: the fixed-step loops of the NumPy, Torch and JAX backends call the vector field with the integer step "
